@@ -63,7 +63,20 @@ Definition class_of_meta (m : sx) : Z :=
     if ((a <? 0) && (fa =? 1)) || (negb (is_shift op) && (b <? 0) && (fb =? 1)) then 0
     else if fold_exact_class op k n a b then 2 else if fold_ok_class op k n a b then 1 else 0.
 
-Definition run_c12 (inp : sx) : sx :=
+(* multi-constant programs: input (9 variant ((k n expr cons pv) ...)), variant 0 =
+   constant variant (constant names are observed), 1 = run-time variant;
+   output (0 (names...) (outputs...)) | (1 class) | (2 class) *)
+Definition item_of_sx (s : sx) : mitem :=
+  mkItem (kind_of_Z (getZ (nthx 0 s))) (getZ (nthx 1 s)) (expr_of_sx 64 (nthx 2 s))
+         (getZ (nthx 3 s)) (getZ (nthx 4 s)).
+Definition run_c12_multi (inp : sx) : sx :=
+  match run_multi (map item_of_sx (getL (nthx 2 inp))) with
+  | Ok (names, outs) => SL [SZ 0; ofLZ (if getZ (nthx 1 inp) =? 0 then names else []); ofLZ outs]
+  | Err c => SL [SZ 1; SZ c]
+  | Panic c => SL [SZ 2; SZ c]
+  end.
+
+Definition run_c12_single (inp : sx) : sx :=
   let rk := kind_of_Z (getZ (nthx 0 inp)) in
   let rn := getZ (nthx 1 inp) in
   let e := expr_of_sx 64 (nthx 2 inp) in
@@ -73,3 +86,6 @@ Definition run_c12 (inp : sx) : sx :=
   | Err c => SL [SZ 1; SZ c; cls]
   | Panic c => SL [SZ 2; SZ c; cls]
   end.
+
+Definition run_c12 (inp : sx) : sx :=
+  if getZ (nthx 0 inp) =? 9 then run_c12_multi inp else run_c12_single inp.
